@@ -59,7 +59,7 @@ var notCovered = map[string][]string{
 	"C03": {"trap independence of the composite functions rests on the nil-error induction meta-argument (DESIGN 8.6)"},
 	"C04": {"termination of the Ln power series and of loops whose exit is numerical convergence; 'slow is not hang'; format verbs and the string internals of the parsers"},
 	"C07": {"Sqrt/Cbrt/Exp/Ln/Pow inherit 'fits' from the contract of their final round call"},
-	"C16": {"text results (String/Text/Append/Format/Marshal*/Scan/SetString), ProbablyPrime, Rand; the unsafe bridge (inner/updateInner) and math/big are assumed contracts"},
+	"C16": {"text and byte results (String/Text/Append/Format/Marshal*/Gob*/Scan/SetString/Bytes/SetBytes/Bits/SetBits/Size), ModSqrt, ProbablyPrime, Rand have no contract; And/Or/Xor/Not/Lsh/Sqrt/MulRange/Binomial/SetBit/GCD/ModInverse are proved against uninterpreted math/big operation functions (wrapper plumbing, aliasing, representation), not against a bit-level definition; the unsafe bridge (inner/updateInner) and math/big are assumed contracts, the bridge exercised by the bounded differential check (incl. negative zeros handed back by math/big)"},
 	"C17": {"Float64/SetFloat64 (strconv and floating point)"},
 	"C18": {"schedules are not explored: data-race freedom follows from the proved sequential frame conditions by the stated meta-theorem; races inside math/big or the runtime are out of reach"},
 	"C19": {"NumDigits above 128 bits relies on one assumed lemma about the float estimate (bounded stand-in)"},
@@ -163,6 +163,10 @@ func cmdCheck(args []string) {
 
 	// evaluated base cases and bounded stand-ins (labelled bounded; never counted as proved)
 	btests := []string{"TestVerifGlobals"}
+	if prop == "C16" && *tier != "thorough" {
+		// the stand-in for the trusted unsafe bridge (inner/updateInner) is cheap enough for every change
+		btests = append(btests, "TestVerifBigIntBridge")
+	}
 	if *tier == "thorough" {
 		switch prop {
 		case "C19", "C04":
